@@ -32,6 +32,9 @@ def configs(tier, seed):
       # datapoints entering through the daemon's pipeline (service.setupPipeline(['write'])), tagged series spelled in
       # whatever order / syntax the client likes: a re-sent datapoint is an update whatever its spelling
       cfgs.append(dict(name='max%d/fc%d/pipeline-%s' % (mx, fc, sts[0]), max=mx, fc=fc, strategy=sts[0], pipeline=True))
+      # the real writer loop draining, with backend faults: whatever the writer does with a batch it could not write,
+      # the cache stays within its bound and every refusal is signalled
+      cfgs.append(dict(name='max%d/fc%d/writer-%s' % (mx, fc, sts[0]), max=mx, fc=fc, strategy=sts[0], writer=True))
       if fc:
         # RELAY_CACHE_METRICS with no destination up: the daemon's self-metrics wait in the relay buffer and are stored
         # from inside the cacheSpaceAvailable -> resumeReceivingMetrics dispatch, i.e. re-entrantly during a drain
@@ -121,6 +124,55 @@ def oracle(h, world):
   return out
 
 
+def run_writer(cfg, res, ns):
+  from vlib import cachesim, sched as S
+  world = cachesim.World(ns, trace_files=('cache.py', 'events.py', 'writer.py'))
+  r = gen.rng(cfg['seed'], 'C10w', cfg['name'])
+  excs = ['IOError', 'OSError', 'ValueError', 'KeyError']
+  label = 'fc%d/writer' % cfg['fc']
+  for w in range(2 if cfg['tier'] == 'quick' else 8):
+    nm = r.randint(1, 3)
+    metrics = ['m%d' % i for i in range(nm)]
+    ops = []
+    for _ in range(r.randint(2, 4)):
+      for _ in range(r.randint(1, cfg['max'] + 2)):
+        ops.append(('store', r.choice(metrics), 100 + r.randrange(0, cfg['max'] + 3)))
+      ops.append(('sleep', r.choice([0.05, 0.5, 1.2, 2.5])))
+    ops.append(('sleep', 2.5))
+    ops.append(('stop',))
+    plans = [{}] + [{i: excs[(i + w) % 4]} for i in range(8)] + [{i: r.choice(excs) for i in range(30) if r.random() < 0.3} for _ in range(8)]
+    seen = set()
+    for plan in plans:
+      for policy, desc in ((S.DeviationPolicy({}), 'baseline'), (S.RandomPolicy(gen.rng(r.random(), 'rp'), p=r.choice([0.05, 0.2, 0.5])), 'random'),
+                           (S.RandomPolicy(gen.rng(r.random(), 'rp'), p=0.3), 'random')):
+        h = world.run(ops, ('loop',), policy=policy, fault_plan=plan, timeout=60, drain_rest=False)
+        res.count('schedules_executed')
+        res.count('writer_loop_schedules')
+        res.count('bound_evaluations', h.steps)
+        res.count('refusals_observed', sum(1 for s in h.stores if s['refused']))
+        if h.sched_error is not None:
+          res.inconc('%s: %s' % (type(h.sched_error).__name__, h.sched_error))
+          return
+        key = (hash(repr(ops)), repr(sorted(plan.items())), h.trace_hash)
+        if key not in seen:
+          seen.add(key)
+          res.case(hash(key), nontrivial=any(s['refused'] for s in h.stores))
+        else:
+          res.evaluations += 1
+        out = []
+        if h.bound_violation:
+          out.append(('bound-exceeded', 'size %(size)d exceeds the hard limit %(bound)d (step %(step)d, thread %(thread)s)' % h.bound_violation))
+        if h.size_violation:
+          out.append(('size-mismatch', 'size=%(size)d but %(actual)d datapoints held while the lock is free' % h.size_violation))
+        nsig = h.all_signals.count('overflow')
+        if h.stats.get('cache.overflow', 0) != nsig:
+          out.append(('overflow-counter', 'cache.overflow counter %r but %d overflow signals observed' % (h.stats.get('cache.overflow', 0), nsig)))
+        for sig, msg in out:
+          res.violation(label + '/' + sig, '%s [max=%d fc=%s %s, real writer loop, fault plan %r, %s dev=%r] history=%r' % (
+            msg, cfg['max'], cfg['fc'], cfg['strategy'], plan, desc, h.deviations, ops), dict(ops=ops, plan=plan, deviations=h.deviations),
+            case=dict(ops=ops, plan=plan, deviations=h.deviations))
+
+
 def run_config(cfg, res):
   from vlib import boot, cachesim, sched as S
   if cfg.get('instance'):
@@ -137,6 +189,8 @@ def run_config(cfg, res):
     if cfg.get('relaybuf'):
       conf.update({'RELAY_CACHE_METRICS': True, 'DYNAMIC_ROUTER': True, 'RELAY_METHOD': 'consistent-hashing', 'DESTINATIONS': '127.0.0.1:2004:a'})
     ns = boot.boot('carbon-cache', conf)
+  if cfg.get('writer'):
+    return run_writer(cfg, res, ns)
   world = cachesim.World(ns, full_pipeline=bool(cfg.get('pipeline')))
   world.store_through_pipeline = bool(cfg.get('pipeline'))
   exp_hard = cfg['max'] * 1.05 if cfg['fc'] else cfg['max']
